@@ -27,13 +27,13 @@ import (
 // are locally signed Ethereum transactions against the ABI in genesis, finality
 // reports are ordinary signed transactions).
 type Eth struct {
-	n      int
-	Tag    string
-	ops    []*ethOp
-	nonce  uint64
-	Liars  bool // let a threshold-crossing witness lie about the beneficiary (C15 probe only)
-	Dupes  bool // resubmit ERC-20 locks after success (C15 probe only)
-	NoERC  bool
+	n     int
+	Tag   string
+	ops   []*ethOp
+	nonce uint64
+	Liars bool // let a threshold-crossing witness lie about the beneficiary (C15 probe only)
+	Dupes bool // resubmit ERC-20 locks after success (C15 probe only)
+	NoERC bool
 }
 
 type ethOp struct {
@@ -116,7 +116,7 @@ type TrackerRecord struct {
 	SignedETHTx   []byte   `json:"SignedETHTx"`
 	Witnesses     []string `json:"Witnesses"`
 	ProcessOwner  string   `json:"ProcessOwner"`
-	FinalityVotes []int    `json:"FinalityVotes"`
+	FinalityVotes []byte   `json:"FinalityVotes"`
 }
 
 // FindTracker looks a tracker up in the three stores.
